@@ -3,7 +3,7 @@ package driver
 import "strings"
 
 func writerJobs(scribble int64) (quick, thorough []*Job) {
-	b := "writers x writes per writer, queue size q (0 = synchronous channel), blocking/non-blocking queue mode, one entry point per writer out of Write1/Writev/CtxWrite1/CtxWritev/Writer().Write, payloads of 1-3 bytes (first byte a concrete tag, the rest symbolic); ALL interleavings of writers, executor start-up and sender at synchronisation-operation granularity (sound for race-free code; races are C12's subject)"
+	b := "writers x writes per writer, queue size q (0 = synchronous channel), blocking/non-blocking queue mode, one entry point per writer out of Write1/Writev/CtxWrite1/CtxWritev/Writer().Write/Writev with one element/CtxWritev with one element/Writev with an empty element, payloads of 1-3 bytes (first byte a concrete tag, the rest symbolic); ALL interleavings of writers, executor start-up and sender at synchronisation-operation granularity (sound for race-free code; races are C12's subject)"
 	add := func(list *[]*Job, args ...int64) {
 		*list = append(*list, &Job{Pkg: "", Func: "ZZ_C01_Writers", Args: append(args, scribble), Bounds: b})
 	}
@@ -13,33 +13,37 @@ func writerJobs(scribble int64) (quick, thorough []*Job) {
 			if q == 0 && until == 1 {
 				continue
 			}
-			add(&quick, q, until, 2, 1, 1, 1*5+0, 0) // Write1 + Writev
-			add(&quick, q, until, 2, 1, 1, 3*5+2, 1) // CtxWrite1 + CtxWritev
+			add(&quick, q, until, 2, 1, 1, 1*8+0, 0) // Write1 + Writev
+			add(&quick, q, until, 2, 1, 1, 3*8+2, 1) // CtxWrite1 + CtxWritev
 			add(&quick, q, until, 1, 2, 0, 4, 2)     // one writer, two writes through Writer()
 		}
 	}
-	add(&quick, 1, 1, 2, 1, 1, 4*5+1, 100) // with an empty payload
-	add(&quick, 1, 1, 2, 2, 1, 1*5+0, 0)   // 2 + 1 writes
-	add(&quick, 2, 0, 3, 1, 1, 2*25+1*5+0, 1)
+	add(&quick, 1, 1, 2, 1, 1, 4*8+1, 100) // with an empty payload
+	add(&quick, 1, 1, 2, 2, 1, 1*8+0, 0)   // 2 + 1 writes
+	add(&quick, 2, 0, 3, 1, 1, 2*64+1*8+0, 1)
 	for _, q := range []int64{1, 2, 3} {
 		for _, until := range []int64{0, 1} {
-			add(&thorough, q, until, 2, 2, 1, 1*5+0, 0)
-			add(&thorough, q, until, 3, 1, 1, 2*25+1*5+0, 1)
-			add(&thorough, q, until, 2, 2, 1, 3*5+4, 2)
+			add(&thorough, q, until, 2, 2, 1, 1*8+0, 0)
+			add(&thorough, q, until, 3, 1, 1, 2*64+1*8+0, 1)
+			add(&thorough, q, until, 2, 2, 1, 3*8+4, 2)
 			add(&thorough, q, until, 1, 3, 0, 2, 1)
 		}
 	}
-	add(&thorough, 0, 0, 3, 1, 1, 2*25+1*5+0, 0)
-	add(&thorough, 0, 0, 2, 2, 1, 3*5+4, 1)
-	for e := int64(0); e < 25; e++ {
+	add(&thorough, 0, 0, 3, 1, 1, 2*64+1*8+0, 0)
+	add(&thorough, 0, 0, 2, 2, 1, 3*8+4, 1)
+	for e := int64(0); e < 64; e++ {
 		add(&thorough, 1, 1, 2, 1, 1, e, 0)
 	}
-	thorough = append(thorough, &Job{Pkg: "", Func: "ZZ_C01_Writers", Args: []int64{1, 1, 2, 2, 2, 1*5 + 0, 0, scribble}, Bounds: b, Limit: 3000e9})
+	// the single-element / empty-element vector entry points and one writer with three writes (pool reuse)
+	add(&quick, 2, 1, 2, 1, 1, 5*8+6, 0)
+	add(&quick, 1, 0, 2, 1, 1, 7*8+5, 1)
+	add(&quick, 2, 1, 1, 3, 0, 0, 0)
+	thorough = append(thorough, &Job{Pkg: "", Func: "ZZ_C01_Writers", Args: []int64{1, 1, 2, 2, 2, 1*8 + 0, 0, scribble}, Bounds: b, Limit: 3000e9})
 	bs := "single writer, payload sizes {0,1,1023,1024,1025,2048,65536,65537} with symbolic contents through each entry point, followed by a 2-byte write through the next entry point"
-	for e := int64(0); e < 5; e++ {
+	for e := int64(0); e < 8; e++ {
 		for si := int64(0); si < 8; si++ {
 			l := &thorough
-			if (e+si)%4 == 0 || si == 3 {
+			if (e+si)%4 == 0 || si == 3 || si == 7 {
 				l = &quick
 			}
 			q := int64(2)
@@ -49,6 +53,21 @@ func writerJobs(scribble int64) (quick, thorough []*Job) {
 			*l = append(*l, &Job{Pkg: "", Func: "ZZ_C01_Sizes", Args: []int64{q, 1, e, si, scribble}, Bounds: bs})
 		}
 	}
+	return
+}
+
+// preciseJobs: the same harness with the precise sync.Pool model (a Get may return any buffer that was Put):
+// catches recycling bugs that hand one buffer to two queued packets.
+func preciseJobs(scribble int64) (quick, thorough []*Job) {
+	b := "one or two writers, 3-4 writes, precise sync.Pool model (real reuse of recycled buffers, nondeterministic hand-out)"
+	quick = append(quick, &Job{Pkg: "", Func: "ZZ_C01_Writers", Args: []int64{2, 1, 1, 3, 0, 0, 0, scribble}, Bounds: b, PoolPrecise: true})
+	quick = append(quick, &Job{Pkg: "", Func: "ZZ_C01_Writers", Args: []int64{3, 0, 1, 3, 0, 4, 1, scribble}, Bounds: b, PoolPrecise: true})
+	thorough = append(thorough, &Job{Pkg: "", Func: "ZZ_C01_Writers", Args: []int64{2, 1, 2, 2, 1, 1*8 + 0, 0, scribble}, Bounds: b, PoolPrecise: true})
+	br := "sequential (manual executor): `first` payloads sent and recycled in one batch, then `second` payloads accepted with the precise pool model, callers scribble"
+	for _, c := range [][]int64{{4, 2, 2, 0}, {4, 2, 2, 1}, {6, 3, 2, 2}, {2, 2, 1, 4}} {
+		quick = append(quick, &Job{Pkg: "", Func: "ZZ_C10_Recycle", Args: c, Bounds: br, PoolPrecise: true})
+	}
+	thorough = append(thorough, &Job{Pkg: "", Func: "ZZ_C10_Recycle", Args: []int64{6, 3, 3, 5}, Bounds: br, PoolPrecise: true})
 	return
 }
 
@@ -67,6 +86,9 @@ func labelFilter(prefixes ...string) func(string) bool {
 func init() {
 	q0, t0 := writerJobs(0)
 	q1, t1 := writerJobs(1)
+	pq, pt := preciseJobs(1)
+	q1 = append(q1, pq...)
+	t1 = append(t1, pt...)
 	concAssume := append([]string{
 		"interleaving at the granularity of synchronisation operations (sync/atomic, channel operations, select, mutexes, context cancellation, time.Sleep, mock-transport yield) - complete for data-race-free executions; race freedom is decided separately (C12)",
 		"sync.Pool modelled as empty on Get; Put replaces the buffer contents by arbitrary bytes",
@@ -76,8 +98,8 @@ func init() {
 		Jobs: jobsBy(q0, t0), Labels: labelFilter("c01-"),
 		MustReach: []string{"c01-quiescent", "c01-sizes-done", "c01-queue-full"},
 		Bounds: map[string]string{
-			"quick":    "2 writers x 1 write, 1 writer x 2 writes, 2+1 writes and 3 writers x 1 write, queue sizes 0 (synchronous), 1, 2, both queue modes, three entry-point combinations, one empty payload; single-writer size sweep over 14 of 40 (entry point, size) combinations",
-			"thorough": "2+1 writes and 3 writers x 1 write for queue sizes 1..3 in both modes, 1 writer x 3 writes, 2 writers x 2 writes (queue 1, up to 50 min), all 25 entry-point pairs, full size sweep",
+			"quick":    "2 writers x 1 write, 1 writer x 2 writes, 2+1 writes and 3 writers x 1 write, queue sizes 0 (synchronous), 1, 2, both queue modes, three entry-point combinations, one empty payload; single-writer size sweep over 28 of 64 (entry point, size) combinations incl. 65537 bytes through every entry point",
+			"thorough": "2+1 writes and 3 writers x 1 write for queue sizes 1..3 in both modes, 1 writer x 3 writes, 2 writers x 2 writes (queue 1, up to 50 min), all 64 entry-point pairs, full size sweep",
 		},
 		Outside:     "more than 3 writers / 4 writes; failing transports (C07)",
 		Assumptions: concAssume,
